@@ -83,23 +83,30 @@ def _check_stats(case):
     back = Measurements.from_counts(counts)
     if sorted(back.bitstrings) != sorted(tuple(s) for s in shots) or back.get_counts() != counts:
         return False, "from_counts / get_counts are not inverse"
-    for op in _ops():
-        terms = [t for t in op.terms]
-        if any(q >= n for t in terms for q in t.qubits):
+    from orquestra.quantum.operators import PauliSum
+    for op0 in _ops():
+        if any(q >= n for t in op0.terms for q in t.qubits):
             continue
-        for bessel in (False, True):
-            if bessel and N < 2:
-                continue
-            ev = m.get_expectation_values(op, use_bessel_correction=bessel)
-            vals = [t.coefficient * sum(_eps(s, t.qubits) for s in shots) / N for t in terms]
-            if not np.allclose(ev.values, vals, atol=1e-12):
-                return False, f"values {list(ev.values)} expected {vals} for {op} on {shots}"
-            corr = [[a.coefficient * b.coefficient * sum(_eps(s, a.qubits) * _eps(s, b.qubits) for s in shots) / N for b in terms] for a in terms]
-            if not np.allclose(ev.correlations[0], corr, atol=1e-12):
-                return False, f"correlations {ev.correlations[0].tolist()} expected {corr} for {op} on {shots}"
-            cov = (np.array(corr) - np.outer(vals, vals)) / (N - 1 if bessel else N)
-            if not np.allclose(ev.estimator_covariances[0], cov, atol=1e-12):
-                return False, f"covariances (bessel={bessel}) differ for {op} on {shots}"
+        # the statistics are homogeneous in the coefficients: the same data with every coefficient scaled by 1e-5 / 3e3 (small and large
+        # operators) must give the scaled statistics to RELATIVE precision - no absolute threshold may swallow a small covariance
+        for scale in (1.0, 1e-5, 3e3):
+            op = op0 if scale == 1.0 else PauliSum([t.copy(new_coefficient=t.coefficient * scale) for t in op0.terms])
+            terms = [t for t in op.terms]
+            for bessel in (False, True):
+                if bessel and N < 2:
+                    continue
+                ev = m.get_expectation_values(op, use_bessel_correction=bessel)
+                vals = [t.coefficient * sum(_eps(s, t.qubits) for s in shots) / N for t in terms]
+                if not np.allclose(ev.values, vals, rtol=1e-9, atol=1e-13 * scale):
+                    return False, f"values {list(ev.values)} expected {vals} for {op} on {shots}"
+                corr = [[a.coefficient * b.coefficient * sum(_eps(s, a.qubits) * _eps(s, b.qubits) for s in shots) / N for b in terms] for a in terms]
+                if not np.allclose(ev.correlations[0], corr, rtol=1e-9, atol=1e-13 * scale ** 2):
+                    return False, f"correlations {ev.correlations[0].tolist()} expected {corr} for {op} on {shots}"
+                cov = (np.array(corr) - np.outer(vals, vals)) / (N - 1 if bessel else N)
+                if not np.allclose(ev.estimator_covariances[0], cov, rtol=1e-7, atol=1e-13 * scale ** 2):
+                    return False, f"covariances (bessel={bessel}) {np.array(ev.estimator_covariances[0]).tolist()} expected {cov.tolist()} for {op} on {shots}"
+        op = op0
+        terms = [t for t in op.terms]
         par = get_parities_from_measurements([tuple(s) for s in shots], op)
         for i, t in enumerate(terms):
             even = sum(1 for s in shots if _eps(s, t.qubits) == 1)
